@@ -240,13 +240,19 @@ const itemsPerBatch = 1000
 func (a *GsfaWriter) Close() error {
 	a.mu.Lock()
 	defer a.mu.Unlock()
+	// Holding a.mu means no Push is in flight, so nothing more will be sent to fullBufferWriterChan.
+	// The full batches that are still in the channel (or held by the background writer) are OLDER than
+	// everything left in the accumulators; they must reach the linked log first, otherwise a record with
+	// older transactions ends up in front of a record with newer ones for the same key.
+	// So: first let the background writer drain the channel and exit...
+	a.exiting.Store(true)
+	klog.Info("Closing full buffer writer...")
+	<-a.fullBufferWriterDone
+	// ...and only then flush what is left in the accumulators.
 	if err := a.flushAccum(a.accum); err != nil {
 		return err
 	}
-	a.exiting.Store(true)
 	klog.Info("Closing linked log...")
-	<-a.fullBufferWriterDone
-	klog.Info("Closing full buffer writer...")
 	a.cancel()
 	{
 		{
